@@ -413,6 +413,11 @@ func judge(res *core.CaseResult, s setup, f faultSpec, base *runOut) {
 			time.Sleep(5 * time.Millisecond)
 		}
 	}
+	// the probes are fault-free: on a loaded machine they must not race the
+	// short timeout and deadline the fault needed (a call stolen by an abandoned
+	// handler loop still ends in a timeout, well inside the watchdog below)
+	m.HandlerTimeout = 5 * time.Second
+	m.HandlerDeadline = 5 * time.Second
 	probeDone := make(chan am.Result, 1)
 	var veto2 am.Result
 	before := o.hl.Len()
@@ -433,7 +438,7 @@ func judge(res *core.CaseResult, s setup, f faultSpec, base *runOut) {
 			res.Violate("C08/probe-veto-ignored/"+f.Kind+"/"+cls, fmt.Sprintf(
 				"after the fault a vetoing PEnter was ignored: Add1(P) returned %s, P active=%v", rec.ResStr(veto2), m.Is1("P")), ctx())
 		}
-m.Remove1("P", nil)
+		m.Remove1("P", nil)
 		// the probes are fault-free: they must not raise a new Exception (an
 		// abandoned handler loop stealing calls shows up as handler timeouts)
 		if m.IsErr() {
